@@ -287,6 +287,23 @@ def answer (op : String) (args : List String) : String :=
     match decodeVersion v with
     | some v => withRange t (fun r => b01 (r.satisfies v))
     | none => "badreq"
+  | "c02", [a, b, v] =>
+    match decodeText a, decodeText b, decodeVersion v with
+    | some a, some b, some v =>
+      let sat (t : List Char) : String := match Range.parse t with
+        | .ok r => b01 (r.satisfies v)
+        | .error _ => "e"
+      let printed (t : List Char) : String := match Range.parse t with
+        | .ok r => match Range.render r with
+          | some d => encodeText d
+          | none => "panic"
+        | .error _ => "e"
+      let orT := a ++ " || ".toList ++ b
+      let roT := b ++ " || ".toList ++ a
+      let andT := a ++ ' ' :: b
+      let dnaT := b ++ ' ' :: a
+      s!"a={sat a} b={sat b} or={sat orT} ro={sat roT} and={sat andT} dna={sat dnaT} pa={printed a} pb={printed b}"
+    | _, _, _ => "badreq"
   | "isect", [a, b] => with2Ranges a b (fun a b => showRangeOpt (a.intersect b))
   | "rdiff", [a, b] => with2Ranges a b (fun a b => match a.difference b with
       | some r => showRangeOpt r
@@ -563,6 +580,45 @@ def check (op : String) (args : List String) (impl : String) : List (String × S
         else if impl == b01 (Known.sat true true r v) then [("C01", s!"K2+K3 crate {impl} npm {b01 want} at {showV v}")]
         else [("C01", s!"satisfies: crate {impl}, npm desugaring {b01 want} at {showV v}")]
     | _, _ => []
+  | "c02", [a, b, v] =>
+    match decodeText a, decodeText b, decodeVersion v with
+    | some ta, some tb, some v =>
+      let get (k : String) : String := (flagOf impl k).getD "?"
+      let t (x : String) : Bool := x == "1"
+      let sa := get "a"; let sb := get "b"
+      let anyPanic := (impl.splitOn " ").any (fun f => f.endsWith "=panic")
+      if anyPanic then [("C06", "Range::parse / satisfies panicked")] else
+      -- OR: `a || b` is satisfied exactly when a or b is; it fails to parse only if both do
+      let wantOr := if sa == "e" && sb == "e" then "e" else b01 (t sa || t sb)
+      let orFail := if get "or" == wantOr && get "ro" == wantOr then [] else
+        [("C02", s!"`a || b`: crate or={get "or"} ro={get "ro"}, expected {wantOr} (a={sa} b={sb}) at {showV v}")]
+      -- AND: only for comparator lists (no hyphen form, closed tokens): generated without blanks
+      -- inside comparators, so a text containing " - " or `||` is skipped
+      let plain (x : List Char) : Bool :=
+        let str := String.ofList x
+        !(x.any (· == '|')) && (str.splitOn " - ").length == 1 && (str.splitOn "\t").length == 1 &&
+          x.head? != some ' ' && x.getLast? != some ' ' && (str.splitOn "  ").length == 1
+      let andFail :=
+        if !(plain ta && plain tb) then [] else
+        let va := vsetOfField (get "pa")
+        let vb := vsetOfField (get "pb")
+        -- a side that fails to parse either has no valid comparator (it constrains nothing) or an
+        -- empty conjunction (then `a b` admits nothing): both readings are accepted
+        let norm (x : String) : String := if x == "e" then "0" else x
+        let okDna := norm (get "dna") == norm (get "and")
+        let dnaFail := if okDna then [] else [("C02", s!"`a b` vs `b a`: and={get "and"} dna={get "dna"} at {showV v}")]
+        if sa == "e" || sb == "e" then
+          let other := if sa == "e" then sb else sa
+          let okAnd := norm (get "and") == "0" || norm (get "and") == norm other
+          (if okAnd then [] else [("C02", s!"`a b`: crate and={get "and"} with a={sa} b={sb} at {showV v}")]) ++ dnaFail
+        else match va, vb with
+          | some A, some B =>
+            let w := if v.pre.isEmpty then b01 (t sa && t sb) else b01 (A.within v && B.within v && (t sa || t sb))
+            (if norm (get "and") == w then [] else
+              [("C02", s!"`a b`: crate and={get "and"}, expected {w} (a={sa} b={sb}) at {showV v}")]) ++ dnaFail
+          | _, _ => dnaFail
+      orFail ++ andFail
+    | _, _, _ => []
   | "vround", [_] =>
     if impl == "perr" || impl == "ok same=1 fixed=1" then [] else [("C12", s!"print/parse round trip: {impl}")]
   | "serdev", [_] =>
